@@ -88,6 +88,13 @@ package backend
 //@   ensures {C07} [a-directory-is-skipped-only-if-nothing-below-it-is-listed-separately] ownDecision && ret0 == fs.SkipDir ==> \
 //@        inSkipList || (d.IsDir() && ( \
 //@            (prefix != "" && !strings.HasPrefix(path + "/", prefix) && !strings.HasPrefix(prefix, path + "/")) || rolledUp))
+// completeness: a key that rolls up into a common prefix is left out without the prefix being listed only when the
+// marker is that prefix or lies in it (or the page is full, which ends the walk)
+//@   let key0 = ite(d.IsDir(), in0 + "/", in0)
+//@   at-return {C07} [a-common-prefix-is-left-out-only-at-or-inside-the-marker] when ownDecision && (ret0 == nil || ret0 == fs.SkipDir) && in0 != "." \
+//@        && called("backend.contains") && !result("backend.contains", 0) \
+//@        && delimiter != "" && strings.HasPrefix(key0, prefix) && strings.Contains(strings.TrimPrefix(key0, prefix), delimiter) && key0 != marker && !(key0 < marker) :: \
+//@        ensures in(cpref, cpmap) || cpref == marker || strings.HasPrefix(marker, cpref)
 // completeness: the walk is ended early only by a full page, which is then declared truncated
 //@   ensures {C07} [the-walk-stops-early-only-on-a-full-page] ownDecision && ret0 == fs.SkipAll ==> truncated && old(pastMax)
 //@   ensures {C07} [truncation-is-declared-only-on-a-full-page-and-stops-the-walk] truncated != old(truncated) ==> truncated && old(pastMax) && ret0 == fs.SkipAll
